@@ -46,6 +46,11 @@ type rich struct {
 
 type richFeat struct {
 	refs, lists, compr, lets, disj, builtins, dyn, defs bool
+	// declCompr: field comprehensions (`for k, v in x {...}`, `if c {...}`) as declarations of generated structs.
+	// Only in `--gen wild`: on the pinned tree random programs with such comprehensions over enclosing or
+	// self-referential structs run into several evaluator defects (hangs, nil dereferences: open items in
+	// design/C02-explore-notes.md); the default stream keeps them to the fixed, triaged cycle templates and the corpus.
+	declCompr bool
 }
 
 var richNames = []string{"a", "b", "c", "d", "e", "f", "g", "h", "foo", "bar", "_h", "_k"}
@@ -375,7 +380,7 @@ func (g *rich) decls(d, n int) []string {
 					ds = append(ds, fmt.Sprintf("u%d: %s", g.lets, ln))
 				}
 			}
-		case k < 31 && g.feat.compr:
+		case k < 31 && g.feat.declCompr:
 			ds = append(ds, nm+": "+g.expr(t, d))
 			src := g.expr(tT, d-1)
 			g.push()
@@ -387,7 +392,7 @@ func (g *rich) decls(d, n int) []string {
 			}
 			g.pop()
 			ds = append(ds, "for k, v in "+src+" {"+body+"}")
-		case k < 33 && g.feat.compr:
+		case k < 33 && g.feat.declCompr:
 			ds = append(ds, nm+": "+g.expr(t, d))
 			cond := g.expr(tB, 2)
 			if g.r.Chance(1, 3) {
